@@ -896,8 +896,11 @@ func (g *G) message(cmd string) msg {
 		m.Kind = "extend"
 		b = append(b, g.bytesN(1, 40)...)
 	case k < 88 && len(p.counts) > 0:
-		m.Kind = "setcount"
 		off := p.counts[g.n(0, len(p.counts)-1, "cntfield")]
+		if off >= len(b) || off+csLen(b[off:]) > len(b) {
+			break
+		}
+		m.Kind = "setcount"
 		old := csLen(b[off:])
 		var v uint64
 		switch g.k(4) {
